@@ -627,7 +627,7 @@ def refs_term(r):
 
 
 def pre_term(r):
-    return "let T := %s in let C := %s in pre_check C T" % (r.t_pre, r.cfg)
+    return "let T := %s in let C := %s in pre_check_any C T" % (r.t_pre, r.cfg)
 
 
 # --------------------------------------------------------------------------- injected runs and the model-free oracles
@@ -883,7 +883,7 @@ QUICK = [("new", "0004", False), ("version", "0002", True), ("dedup", "0004", Fa
 READ_ALL = [("version", "0004", False), ("dedup", "0004", False), ("upgrade_new", "0004", True)]
 READ_SAMPLED = [("new", "0002", True), ("upgrade", "0004", True), ("delete", "0002", False)]   # a third
 WRITE_GRANULARITY = [("version", "0004", False), ("upgrade", "0004", True), ("upgrade_new", "0004", True), ("new", "0004", False)]
-IMPORTS = ["Base.Bytes", "Model.FsOps", "Model.FsTree", "Model.Commit", "Corr.CheckCommit"]
+IMPORTS = ["Base.Bytes", "Model.FsOps", "Model.FsTree", "Model.Commit", "Corr.CheckCommit", "Corr.CheckCommitUp"]
 CLS_NO = {"old": 0, "new": 1, "invalid": 2, "other": 3}
 
 
